@@ -35,6 +35,8 @@ type producer struct {
 
 type work struct {
 	dir string
+	// buildOnly: viaFile writes the generated file to this path and returns without reading it
+	buildOnly string
 }
 
 func ragOpts(o mdOpts) rag.MarkdownOptions {
@@ -55,10 +57,16 @@ func ragOpts(o mdOpts) rag.MarkdownOptions {
 // the public Extractor API.
 func (w *work) viaFile(ext string, data []byte, o mdOpts) (string, map[string][]byte, error) {
 	path := filepath.Join(w.dir, "case."+ext)
+	if w.buildOnly != "" {
+		path = w.buildOnly
+	}
 	if err := os.WriteFile(path, data, 0o644); err != nil {
 		panic(err)
 	}
 	files := map[string][]byte{"input." + ext: data}
+	if w.buildOnly != "" {
+		return "", files, nil
+	}
 	var md string
 	var err error
 	if o.API == "plain" {
